@@ -17,7 +17,8 @@ RULE = ("Proper MDP specs (every policy reaches an explicitly absorbing state w.
         "{1e-1,1e-2,1e-4} x seed x randomize_action_order. Oracle: policy-enumeration V*, expected step count and "
         "exact return of the returned greedy policy; listener invariant V >= V* at every trial end. Non-trivial: "
         ">=2 trials, a stochastic action on the policy's closure and an inexact heuristic; distinct by spec hash."
-        " Also: MDPs of 16-45 states; margins down to 1e-9 and 0 and up to 1.0; heuristics loose by less than the margin; ties relative to the heuristic; a gadget with a labelled state shared by two branches; history invariant on recorded action orders; consistency of the returned policy's whole closure to within the margin.")
+        " Also: MDPs of 16-45 states; margins down to 1e-9 and 0 and up to 1.0; heuristics loose by less than the margin; ties relative to the heuristic; a gadget with a labelled state shared by two branches; history invariant on recorded action orders; consistency of the returned policy's whole closure to within the margin."
+        ' 520-640-state problems and a toll-road gadget (one check-solved pass over more than 500 states).')
 ASSUMPTIONS = ["a deterministic budget of 200000 trial steps marks a run inconclusive",
                "reference V*, N_pi, J_pi from numpy linear solves on <=6 states"]
 TOL = 1e-9
